@@ -178,6 +178,9 @@ def dump_resume(chk, plans, only_props):
                     continue
                 k = r["job"]["dump"]
                 if r["run_rc"] == -9:
+                    if only_props is not None and "C17" in only_props:
+                        chk.violation("resume:hang", "plan %d (%s, %s) dump %d: the resumed run does not end at the configured end of "
+                                      "the run (its end-of-run event was lost with the dump)" % (n, p["cfg"], p["sched"], k), dict(plan=p))
                     if only_props is None:
                         chk.violation("resume:hang", "plan %d (%s, %s) dump %d: the resumed run does not reach the end of the run "
                                       "(a pending event of the dumped scheduler was lost)" % (n, p["cfg"], p["sched"], k), dict(plan=p))
